@@ -30,7 +30,7 @@ Lemma validate_aux_spec ps : forall top sd seen,
   (NoDup (names_of ps) /\ forall x, In x (names_of ps) -> ~ In x seen).
 Proof.
   induction ps as [|p ps IH]; intros top sd seen.
-  - cbn. split; [intros _|reflexivity]. repeat split; auto; try constructor. intros x [].
+  - cbn. split; [intros _|reflexivity]. repeat split; auto; try constructor; intros x [].
   - cbn [validate_aux ksorted dsuffix names_of map].
     destruct (Nat.ltb (kind_rank (pkind p)) top) eqn:E1.
     { split; [discriminate|]. intros [[H _] _]. inversion H; subst. apply Nat.ltb_lt in E1. lia. }
@@ -146,6 +146,39 @@ Proof.
   induction 1 as [|q b Hq _ [IH1 IH2]]; [split; constructor|]. split.
   - cbn [dsuffix]. split; [intros _ _; exact IH2|exact IH1].
   - constructor; [|exact IH2]. unfold optp. rewrite Hq. discriminate.
+Qed.
+
+(* ---- duplicate-free name lists ---- *)
+Lemma nodup_names_inj ps p q :
+  NoDup (names_of ps) -> In p ps -> In q ps -> pname p = pname q -> p = q.
+Proof.
+  induction ps as [|x ps IH]; intros Hn Hp Hq E; [destruct Hp|].
+  cbn in Hn. inversion Hn as [|? ? Hx Hn']; subst.
+  destruct Hp as [->|Hp], Hq as [->|Hq]; auto.
+  - exfalso. apply Hx. rewrite E. apply in_map. exact Hq.
+  - exfalso. apply Hx. rewrite <- E. apply in_map. exact Hp.
+Qed.
+
+Lemma nodup_map_inj {A B} (f : A -> B) l :
+  (forall x y, In x l -> In y l -> f x = f y -> x = y) -> NoDup l -> NoDup (map f l).
+Proof.
+  intros Hi Hn. induction Hn as [|x l Hx Hn IH]; [constructor|]. cbn. constructor.
+  - intros Hin. apply in_map_iff in Hin. destruct Hin as [y [E Hy]].
+    assert (y = x) by (apply Hi; [right; exact Hy|left; reflexivity|exact E]). subst y. contradiction.
+  - apply IH. intros a b Ha Hb. apply Hi; right; assumption.
+Qed.
+
+Lemma nodup_of_names ps : NoDup (names_of ps) -> NoDup ps.
+Proof.
+  induction ps as [|p ps IH]; intros H; [constructor|]. cbn in H. inversion H; subst. constructor; [|apply IH; assumption].
+  intros Hin. apply H2. apply in_map. exact Hin.
+Qed.
+
+Lemma valid_sig_parts ps :
+  valid_sig ps = true -> validate ps = true /\ (count_kind VP ps <= 1)%nat /\ (count_kind VK ps <= 1)%nat.
+Proof.
+  unfold valid_sig. intros H. apply andb_true_iff in H. destruct H as [H H2]. apply andb_true_iff in H.
+  destruct H as [H0 H1]. apply Nat.leb_le in H1. apply Nat.leb_le in H2. auto.
 Qed.
 
 Print Assumptions validate_spec.
